@@ -363,6 +363,8 @@ def check(F, rep, tier):
     rep.extra["panic_sites"] = {"total": len(sites), "auto": n_auto, "audited": n_aud, "derive_unreferenced": n_der}
     stdout_rules(F, rep, cg, root, rwa, reach)
     git_errors(F, rep, cg)
+    # the audited unwraps of LocalSegment::try_new_str rest on "every resolved value is a sanitiser output" (C01 R01.2)
+    core.borrow(F, rep, "c01", "C01", "R13.1", ("R01.2:unsanitised",), "values that reach LocalSegment::try_new_str(..).unwrap() are sanitiser outputs")
     return core.finish(rep, explanation=EXPL, assumptions=ASSUME, trusted=TRUST)
 
 # ---------------------------------------------------------------------------
